@@ -97,10 +97,13 @@ func (q *ShardQueue) Add(gts ...WriterGetter) {
 	q.lock(shard)
 	trigger := len(q.getters[shard]) == 0
 	q.getters[shard] = append(q.getters[shard], gts...)
+	// The trigger is recorded before the shard is unlocked: a getter appended to a non-empty
+	// shard is then always covered by a counted trigger, which is what Close waits for.
+	first := trigger && q.triggering(shard)
 	q.unlock(shard)
-	if trigger {
+	if first {
 		verifPoint(vpAddAfterAppend, q, int(shard))
-		q.triggering(shard)
+		q.foreach()
 	}
 }
 
@@ -120,8 +123,9 @@ func (q *ShardQueue) Close() error {
 	return nil
 }
 
-// triggering shard.
-func (q *ShardQueue) triggering(shard int32) {
+// triggering records the shard in the trigger list.
+// It reports whether the caller has to start the worker (the first pending trigger).
+func (q *ShardQueue) triggering(shard int32) (first bool) {
 	q.listLock.Lock()
 	q.w = (q.w + 1) % q.size
 	q.list[q.w] = shard
@@ -129,10 +133,10 @@ func (q *ShardQueue) triggering(shard int32) {
 	verifPoint(vpTriggeringAfterList, q, int(shard))
 
 	if atomic.AddInt32(&q.trigger, 1) > 1 {
-		return
+		return false
 	}
 	verifPoint(vpTriggeringAfterCount, q, int(shard))
-	q.foreach()
+	return true
 }
 
 // foreach swap r & w. It's not concurrency safe.
